@@ -317,6 +317,11 @@ def rule_forwarders(rep, prog, eff):
     for b in prog.bodies:
         if b.impl_trait == "bitmap::Bitmap" and b.self_ty and b.self_ty.s.startswith("std::option::Option<") and b.name in ("mark_dirty", "dirty_at", "slice_at"):
             n += 1
+            if b.name == "dirty_at":
+                # an absent bitmap tracks nothing: whatever dirty_at returns without asking the inner bitmap is `false` (found by a sweep that
+                # flipped the literal: `None => true` was reported by nothing)
+                lits = [deep_strip(t) for _p, t in b.return_terms() if deep_strip(t)[0] == 'const']
+                rep("R5.3.option_none_clean", b.key, all(t == ('const', 0) for t in lits), b.where(), f"literal results of Option<B>::dirty_at: {[t[1] for t in lits]} (must all be false)")
             cs = [c for c in b.calls() if canon(c.target or "").endswith("Bitmap::" + b.name)]
             ok = len(cs) == 1
             detail = "no forwarding call"
